@@ -14,6 +14,17 @@
  * They are declared weak: an op table the generated code does not reference is
  * not pulled out of the archive and compares as NULL, so the link is exactly
  * the one converter-example.mk performs.
+ *
+ * Round 3 (type references): after each descriptor a line
+ *   #X <id> op=<n> el=<n> sp=<n> gc=<n> per=<n> oer=<n> ec=<count> rep=<n>
+ * gives the IDENTITY of the pointer-valued slots as small tokens (0 = NULL,
+ * otherwise 1 + the rank of first appearance of that address among all slots
+ * of that column): two descriptors share an op table / member table /
+ * specifics record iff their tokens are equal.  rep = what the specifics say
+ * about the C REPRESENTATION for the kinds whose specifics are not printed
+ * structurally: NativeReal - float_size (NULL: sizeof(double)); the OCTET STRING
+ * family (strings, BIT STRING, ANY, time types) - 1 + subvariant + 8*struct_size
+ * (NULL: 0); every other kind 0.  Parsers of the "(mkD" lines ignore the line.
  */
 #include <stdio.h>
 #include <stdlib.h>
@@ -80,6 +91,33 @@ static int idx_of(const asn_TYPE_descriptor_t *td) {
     if(ntab >= MAXD) { fprintf(stderr, "dumpdescr: too many descriptors\n"); exit(3); }
     tab[ntab] = td;
     return ntab++;
+}
+
+/* private copies of two specifics layouts (their headers may be absent from the emitted file set) */
+typedef struct { unsigned struct_size, ctx_offset; int subvariant; } dd_OS_specifics_t;
+typedef struct { unsigned float_size; } dd_NativeReal_specifics_t;
+
+static long rep_of(const asn_TYPE_descriptor_t *td, const char *k) {
+    if(&asn_OP_NativeReal && td->op == &asn_OP_NativeReal)
+        return td->specifics ? (long)((const dd_NativeReal_specifics_t *)td->specifics)->float_size : (long)sizeof(double);
+    if(!strcmp(k, "KOctets") || !strcmp(k, "KBits") || !strcmp(k, "KAny") || !strcmp(k, "KStr") || !strcmp(k, "KTime")) {
+        const dd_OS_specifics_t *s = (const dd_OS_specifics_t *)td->specifics;
+        return s ? 1 + (long)s->subvariant + 8 * (long)s->struct_size : 0;
+    }
+    return 0;
+}
+
+/* identity tokens of pointer-valued slots, one name space per column */
+#define NCOL 6
+static const void *seen_ptr[NCOL][MAXD];
+static int nseen[NCOL];
+static int tok(int col, const void *p) {
+    int i;
+    if(!p) return 0;
+    for(i = 0; i < nseen[col]; i++) if(seen_ptr[col][i] == p) return i + 1;
+    if(nseen[col] >= MAXD) { fprintf(stderr, "dumpdescr: too many distinct pointers\n"); exit(3); }
+    seen_ptr[col][nseen[col]] = p;
+    return ++nseen[col];
 }
 
 static void pz(long v) { if(v < 0) printf("(%ld)", v); else printf("%ld", v); }
@@ -231,6 +269,9 @@ static void dump(int i) {
         printf("%s", td->specifics ? "SOther" : "SNone");
     }
     printf(" %d)\n", bad | g_bad);
+    printf("#X %d op=%d el=%d sp=%d gc=%d per=%d oer=%d ec=%u rep=%ld\n", i, tok(0, td->op), tok(1, td->elements), tok(2, td->specifics),
+           tok(3, (const void *)(size_t)td->encoding_constraints.general_constraints), tok(4, td->encoding_constraints.per_constraints),
+           tok(5, td->encoding_constraints.oer_constraints), td->elements_count, rep_of(td, k));
 }
 
 int main(void) {
